@@ -375,12 +375,13 @@ std::string prop_enumerate(const std::string & tier, const std::string & outdir)
             Op def = gen_signal(e, 5, 1, *dtype_by_name("f32"), DEF_MINIMAL);
             def.annodf = 10; def.utcdf = 10; def.rate = 1000;
             p.ops.push_back(def);
-            { Op w; w.op = "fsr"; w.sig = 5; w.sample_id = 100; w.n = 45; w.pat.kind = "random"; w.pat.seed = 8; w.poff = 0; p.ops.push_back(w); }
+            bool lean = tier != "thorough";     // quick tier: fewer samples, no annotations, every second bit position
+            { Op w; w.op = "fsr"; w.sig = 5; w.sample_id = 100; w.n = lean ? 12 : 45; w.pat.kind = "random"; w.pat.seed = 8; w.poff = 0; p.ops.push_back(w); }
             int64_t sid = 100, utc = 1000000;
             for (int k = 0; k < 12; ++k) {
                 sid += 3 + (k * 7) % 5; utc += (int64_t) (1 << 20) * (3 + (k * 5) % 11);
                 Op u; u.op = "utc"; u.sig = 5; u.sample_id = sid; u.utc = utc; p.ops.push_back(u);
-                if (k < 11) { Op a; a.op = "anno"; a.sig = 5; a.ts = 100 + 4 * k; a.y = (float) k; a.atype = k % 3; a.group = 0; a.stor = 2; a.data.lit = {'a', (uint8_t) ('a' + k)}; p.ops.push_back(a); }
+                if (k < 11 && !lean) { Op a; a.op = "anno"; a.sig = 5; a.ts = 100 + 4 * k; a.y = (float) k; a.atype = k % 3; a.group = 0; a.stor = 2; a.data.lit = {'a', (uint8_t) ('a' + k)}; p.ops.push_back(a); }
             }
         }
         p.close = true;
@@ -393,7 +394,8 @@ std::string prop_enumerate(const std::string & tier, const std::string & outdir)
         if (base.size() > 6000) base.resize(base.size());   // keep as is; small by construction
         Dump d0 = dump_file("c04e.jls", 0);
         if (d0.open_rc) continue;
-        for (size_t bit = 0; bit < base.size() * 8; ++bit) {
+        size_t bit_step = (fi < 0 && tier != "thorough") ? 2 : 1;
+        for (size_t bit = 0; bit < base.size() * 8; bit += bit_step) {
             std::vector<Fault> fs{Fault{0, bit / 8, (uint32_t) (bit % 8), 0}};
             std::vector<uint8_t> alt = base;
             apply_faults(alt, fs);
@@ -417,7 +419,7 @@ std::string prop_enumerate(const std::string & tier, const std::string & outdir)
     res.set("evaluations", evals);
     res.set("distinct_nontrivial", nt);
     res.set("exhaustive", true);
-    res.set("bound", strf("every 1-, 2- and 3-bit pattern of a 32-byte chunk header incl. its CRC field (2,796,416 patterns) against jls_crc32c_hdr; every single-bit flip (%lld) of every byte of %d small file(s) (one built by hand with indexed UTC and annotation tracks, the others generated), each judged through the full reader dump and a windowed, retrying second pass", flips, nfiles + 1));
+    res.set("bound", strf("every 1-, 2- and 3-bit pattern of a 32-byte chunk header incl. its CRC field (2,796,416 patterns) against jls_crc32c_hdr; every single-bit flip (%lld) of every byte of %d generated small file(s), plus a hand-built file with an indexed UTC track (quick tier: lean file, every second bit position; thorough tier: with an indexed annotation track, every bit), each judged through the full reader dump and a windowed, retrying second pass", flips, nfiles));
     res.set("violations", viol);
     mj::Value smp = mj::Value::array(); { mj::Value s = mj::Value::object(); s.set("fault", "flip bit 3 of byte 1234"); smp.push(s); }
     res.set("samples", smp);
